@@ -8,7 +8,10 @@ Open Scope Z_scope.
 Definition rest_ok (i o : V) : bool :=
   let kind := vz (vnth 0 i) in
   negb (vb (vnth 5 o)) &&
-  (if kind =? 2 then (vz (vnth 2 o) =? 3) && (vz (vnth 3 o) =? 400)
+  (if kind =? 3 then
+     (* the backend ended the RPC with an error: same code, message and number of details at the client *)
+     (vz (vnth 2 o) =? vz (vnth 3 i)) && (vz (vnth 6 o) =? vz (vnth 4 i)) && vb (vnth 7 o)
+   else if kind =? 2 then (vz (vnth 2 o) =? 3) && (vz (vnth 3 o) =? 400)
    else vb (vnth 0 o) && vb (vnth 1 o) && (vz (vnth 2 o) =? 0) && (vz (vnth 4 o) =? 1)).
 
 Definition mon_rest : monitor_t := fun suite i o =>
